@@ -225,8 +225,13 @@ def heading_text(cols, keys, row) -> str:
     return " | ".join(parts)
 
 
+def wkey(text: str, font: int, size) -> str:
+    f = Fraction(size)
+    return f"{text}\x00{int(font)}\x00{f.numerator}/{f.denominator}"
+
+
 def oracle_widths(doc) -> dict:
-    """Width (inches, font 1 / 9pt) of every string the pagination may measure."""
+    """Width in inches of every (string, font, size) the pagination may measure, keyed as the model keys it."""
     need = set()
     frames = []
     if isinstance(doc.df, list):
@@ -235,14 +240,22 @@ def oracle_widths(doc) -> dict:
         frames = [(doc.df, doc.rtf_body)]
     for df, body in frames:
         cols = list(df.columns)
-        for row in df.rows():
-            for v in row:
-                need.add(str(v))
+        fonts = BroadcastValue(value=body.text_font) if body.text_font else None
+        sizes = BroadcastValue(value=body.text_font_size) if body.text_font_size else None
+        for r, row in enumerate(df.rows()):
+            for c, v in enumerate(row):
+                font = fonts.iloc(r, c) if fonts is not None else 1
+                size = sizes.iloc(r, c) if sizes is not None else 9
+                need.add((str(v), int(font), size))
             for keys in (body.page_by, body.subline_by):
                 if keys:
-                    need.add(heading_text(cols, list(keys), row))
-    need.discard("")
-    return {s: Fraction(get_string_width(s, font=1, font_size=9)) for s in sorted(need)}
+                    need.add((heading_text(cols, list(keys), row), 1, 9))
+    out = {}
+    for text, font, size in sorted(need, key=lambda t: (t[0], t[1], float(t[2]))):
+        if text == "":
+            continue
+        out[wkey(text, font, size)] = Fraction(get_string_width(text, font=font, font_size=size))
+    return out
 
 
 def dump_doc(doc) -> str:
